@@ -136,6 +136,12 @@ class ClientDriver(ReorgDriver):
             return orig_rpc(method, params)
         d.rpc = rpc
 
+    def violate(self, prop, clause, message, keys=()):
+        super().violate(prop, clause, message, keys)
+        if prop == 'C08' and clause.startswith('view.') and self.case.get('target') == 'C09':
+            # C09: "... and reaches the exact view of C08 on the next quiet refresh"
+            super().violate('C09', 'convergence.' + clause, message, keys)
+
     def teardown(self):
         super().teardown()
         p = self.res.probes
@@ -886,7 +892,7 @@ class MempoolFamily(SubsFamily):
             else:
                 plan.append(dict(op='settle'))
         plan.append(dict(op='settle'))
-        return dict(family='mempool', knobs=k, plan=plan)
+        return dict(family='mempool', knobs=k, plan=plan, target=prop)
 
 
 class StaleFamily(SubsFamily):
